@@ -107,3 +107,23 @@ def replay_quadrature(sp):
         want = n1 ** d if cell != "wedge" else n1 * len(Q.get_quadrature_tri(n)[1])
         return dict(confirmed=bool(len(Wf) != want) if cl == "count" else None, observed=len(Wf), required=want, input=dict(cell=cell, order=n))
     return dict(confirmed=None)
+
+
+def replay_quadrature_fresh(sp):
+    import skfem.quadrature as Q
+    from skfem import refdom as R
+    n = sp["n"]
+    g = getattr(Q, sp["getter"], None)
+    if g is None or sp["getter"] == "<lambda>":
+        return dict(confirmed=None)
+    X0, W0 = g(n)
+    Xc, Wc = X0.copy(), W0.copy()
+    try:
+        X0 *= 3.0
+        W0 += 1.0
+    except ValueError:
+        pass
+    X1, W1 = g(n)
+    bad = not (np.array_equal(X1, Xc) and np.array_equal(W1, Wc))
+    return dict(confirmed=bool(bad), observed="second call returns weights summing to %r" % float(W1.sum()), required="sum %r" % float(Wc.sum()),
+                input="X, W = %s(%d); X *= 3; W += 1; %s(%d)" % (sp["getter"], n, sp["getter"], n))
